@@ -18,6 +18,7 @@ mod s_wrapper;
 mod s_build3d;
 mod s_cli;
 mod s_robust;
+mod s_fragments;
 mod s_trace;
 
 fn main() {
@@ -50,6 +51,7 @@ fn main() {
         "sd" => s_sd::run(&mut out, seed, &tier),
         "trace" => s_trace::run(&mut out, &rest[0]),
         "why" => s_trace::why_abort(&mut out),
+        "fragments" => s_fragments::run(&mut out, seed, &tier),
         "robust" => s_robust::run(&mut out, seed, &tier),
         "cli" => s_cli::run(&mut out, seed, &tier),
         "build3d" => s_build3d::run(&mut out, seed, &tier),
